@@ -295,8 +295,15 @@ def one_incoh(res, case, z, zdata, dm, ref, r, N, T0, srx, sub):
                           f"every channel (rounded delays {r}), but the call "
                           f"{'raised ' + type(exc).__name__ + ': ' + str(exc) if exc else 'returned an empty signal'} [{sub}]",
                           case, sub)
+        elif exc is not None:
+            # nothing can be returned: that is an EMPTY signal of the same type (the statement: "only samples with in-range
+            # sources in every channel are returned"), not an exception from inside NumPy
+            res.violation(f"{site}|no valid instant: raised instead of returning an empty signal", f"rounded delays {r}, N={N}: "
+                          f"{type(exc).__name__}: {exc} [{sub}]", case, sub)
         else:
-            res.hits["no valid instant in span: raise/empty accepted"] += 1
+            if type(out) is not type(z) or out.shape[1:] != z.shape[1:]:
+                res.violation(f"{site}|empty result has another type / sample shape", f"{type(out).__name__} {out.shape} [{sub}]", case, sub)
+            res.hits["no valid instant in span: empty signal"] += 1
         return
     if spread >= N:
         res.violation(f"{site}|samples without sources", f"returned {len(out)} samples although no instant has in-range "
@@ -374,7 +381,7 @@ def main(argv=None):
         required_hits=["buffer overwritten between calls", "delay law triples", "infinite reference frequency", "DM in a non-default unit", "negative DM", "every returned sample traced",
                        "start_time moved", "no start time (relative alignment only)",
                        "channels realigned by different delays", "delays of both signs (reference inside band)",
-                       "all delays one sign (reference outside band)", "no valid instant in span: raise/empty accepted", "dask-backed input with unequal channel chunks", "DM object updated in place", "sample_rate assigned between dedispersions", "user-defined subclass kept"],
+                       "all delays one sign (reference outside band)", "no valid instant in span: empty signal", "dask-backed input with unequal channel chunks", "DM object updated in place", "sample_rate assigned between dedispersions", "user-defined subclass kept"],
         assumptions=["K = 1/2.41e-4 s MHz^2 cm^3/pc exactly as stated; float evaluation budget 16 ulp of the larger term",
                      "completeness is weak by design: any sound window is accepted (the statement only forbids out-of-range sources)",
                      "labels whose exact delay is within 1e-9 of a half-integer are unconstrained"],
